@@ -93,20 +93,22 @@ def main():
                 rec["verdict"] = "killed-by-tests"
                 sink.write(json.dumps(rec) + "\n"); sink.flush()
                 continue
-            procs = {c: subprocess.Popen(["/venv/bin/python", "harness/check.py", c, "--no-evidence"], cwd=HERE, env=env,
-                                         stdout=subprocess.PIPE, stderr=subprocess.STDOUT, text=True) for c in CHECKS}
             caught, broken, concrete = [], [], []
-            for c, p in procs.items():
-                try:
-                    o, _ = p.communicate(timeout=1500)
-                except subprocess.TimeoutExpired:
-                    p.kill(); o = ""; broken.append(c); continue
-                if p.returncode == 1:
-                    caught.append(c)
-                    if any(l.startswith("VIOLATION") and "no-failing-input-found" not in l for l in o.splitlines()):
-                        concrete.append(c)
-                elif p.returncode != 0:
-                    broken.append(c)
+            jobs = int(os.environ.get("MUT_JOBS", "6"))
+            for k0 in range(0, len(CHECKS), jobs):
+                procs = {c: subprocess.Popen(["/venv/bin/python", "harness/check.py", c, "--no-evidence"], cwd=HERE, env=env,
+                                             stdout=subprocess.PIPE, stderr=subprocess.STDOUT, text=True) for c in CHECKS[k0:k0 + jobs]}
+                for c, p in procs.items():
+                    try:
+                        o, _ = p.communicate(timeout=1500)
+                    except subprocess.TimeoutExpired:
+                        p.kill(); o = ""; broken.append(c); continue
+                    if p.returncode == 1:
+                        caught.append(c)
+                        if any(l.startswith("VIOLATION") and "no-failing-input-found" not in l for l in o.splitlines()):
+                            concrete.append(c)
+                    elif p.returncode != 0:
+                        broken.append(c)
             rec.update(caught_by=caught, concrete=concrete, exit2=broken,
                        verdict="caught" if caught else ("harness-error-only" if broken else "SURVIVOR"))
             sink.write(json.dumps(rec) + "\n"); sink.flush()
